@@ -24,6 +24,32 @@ struct RefRow {
     kind: &'static str, // use | path | macro | macro-body | extern-crate
 }
 
+/// `pub use path::to::x as y`: a routine re-exported under another name
+struct AliasRow {
+    file: String,
+    line: usize,
+    target: String,
+    alias: String,
+    cfg: Vec<CfgPred>,
+}
+
+fn use_renames(t: &syn::UseTree, out: &mut Vec<(String, String)>) {
+    match t {
+        syn::UseTree::Path(p) => use_renames(&p.tree, out),
+        syn::UseTree::Group(g) => {
+            for i in &g.items {
+                use_renames(i, out);
+            }
+        },
+        syn::UseTree::Rename(r) => out.push((r.ident.to_string(), r.rename.to_string())),
+        _ => {},
+    }
+}
+
+fn looks_like_routine(n: &str) -> bool {
+    ["f32_", "f64_", "i8_", "i16_", "i32_", "i64_", "u8_", "u16_", "u32_", "u64_"].iter().any(|p| n.starts_with(p)) && (n.contains("_xany_") || n.contains("_xconst_"))
+}
+
 struct StateRow {
     file: String,
     line: usize,
@@ -39,6 +65,7 @@ struct V<'a> {
     /// references to `core::arch` / `std::arch` items, intrinsic-looking calls and `asm!` in files that are not a register
     /// backend (`danger/impl_*.rs`): code every build runs before, or without, any CPU feature check
     arch: &'a mut Vec<RefRow>,
+    aliases: &'a mut Vec<AliasRow>,
 }
 
 /// `_mm256_add_ps`, `__cpuid`, `_xgetbv`, `vaddq_f32` …: an identifier that looks like a vendor intrinsic
@@ -200,6 +227,13 @@ impl<'a, 'ast> Visit<'ast> for V<'a> {
         self.with_attrs(&attrs, |me| {
             match i {
                 syn::Item::Use(u) => {
+                    let mut rn = vec![];
+                    use_renames(&u.tree, &mut rn);
+                    for (target, alias) in rn {
+                        if alias != "_" && (looks_like_routine(&target) || looks_like_routine(&alias)) {
+                            me.aliases.push(AliasRow { file: me.file.clone(), line: u.span().start().line, target, alias, cfg: me.stack.clone() });
+                        }
+                    }
                     let mut ps = vec![];
                     use_paths(&u.tree, String::new(), &mut ps);
                     for p in ps {
@@ -339,6 +373,7 @@ pub fn gen_refs(root: &Path, out: &mut Output) {
     let mut refs = vec![];
     let mut states = vec![];
     let mut arch = vec![];
+    let mut aliases: Vec<AliasRow> = vec![];
     let files = collect_files(root, "cfavml");
     for (rel, modcfg) in &files {
         let text = match fs::read_to_string(root.join(rel)) {
@@ -355,7 +390,7 @@ pub fn gen_refs(root: &Path, out: &mut Output) {
                 continue;
             },
         };
-        let mut v = V { file: rel.clone(), stack: modcfg.clone(), refs: &mut refs, states: &mut states, arch: &mut arch };
+        let mut v = V { file: rel.clone(), stack: modcfg.clone(), refs: &mut refs, states: &mut states, arch: &mut arch, aliases: &mut aliases };
         v.visit_file(&file);
     }
     let mut text = String::from("-- GENERATED by /verif/translator from /repo — do not edit.\nimport CfavmlModel.Prim.Tables\nnamespace Cfavml\nnamespace Tables\n\n");
@@ -384,6 +419,10 @@ pub fn gen_refs(root: &Path, out: &mut Output) {
         ));
     }
     text.push_str(&format!("def archRefs : List ExternalRef := [\n  {}\n]\n\n", arows.into_iter().collect::<Vec<_>>().join(",\n  ")));
+    text.push_str(&format!(
+        "/-- routines re-exported under another name (`pub use … x as y`): (file, line, target, alias) -/\ndef exportAliases : List (String × Nat × String × String) := [{}]\n\n",
+        aliases.iter().filter(|a| !a.cfg.iter().any(|c| format!("{c:?}").contains("Test"))).map(|a| format!("({}, {}, {}, {})", lstr(&a.file), a.line, lstr(&a.target), lstr(&a.alias))).collect::<Vec<_>>().join(", ")
+    ));
     let mut srows = BTreeSet::new();
     for r in &states {
         srows.insert(format!("{{ file := {}, line := {}, what := {}, cfg := {} }}", lstr(&r.file), r.line, lstr(&r.what), cfg_list(&r.cfg)));
